@@ -686,7 +686,9 @@ def fingerprint(W: World):
             return
         d = o.__dict__
         if "_grid" in d:
-            out.append(("grid", grid_fp(d["_grid"]), repr(d.get("_args")), repr(sorted(d.get("_kwargs", {}).items()))))
+            kw = d.get("_kwargs", {})  # private; its container type is not ours to assume (dict today)
+            kw = sorted(kw.items(), key=repr) if isinstance(kw, dict) else kw
+            out.append(("grid", grid_fp(d["_grid"]), repr(d.get("_args")), repr(kw)))
         for k in ("invert", "scale", "steps", "align_corners", "stride", "_resize"):
             if k in d:
                 out.append((k, repr(d[k])))
